@@ -30,6 +30,7 @@ EXPLANATION = (
     "masked-pixel accessors use one selector and one (n_channels, -1) layout."
 )
 NOT_DECIDED = "value equality after the round trip; rejection of every wrong length (only 'a constructed error is raised')"
+TECHNIQUE = "raise-discipline lint + rank/alias abstract domains + interprocedural mutation summaries + re-sync reachability (static analysis)"
 ASSUMPTIONS = ["rank facts of h_matrix/points are a frozen table (menpolint.domains.ATTR_RANK)"]
 
 VEC_METHODS = ("_as_vector", "from_vector", "_from_vector_inplace", "n_parameters")
